@@ -61,6 +61,8 @@ func leanDefs(text string) (map[string]string, []string) {
 
 func fvDir() string { return filepath.Join(RepoDir(), "formal-verification") }
 
+var c17out string
+
 var (
 	c17fresh     string
 	c17freshErr  error
@@ -174,12 +176,19 @@ func runC17(c c17Case) Result {
 		}
 		return ok("sweep", true)
 	case "cli":
-		dir, err := os.MkdirTemp(os.Getenv("VERIF_WORK"), "c17-")
-		if err != nil {
-			return bad("cli", "harness:tempdir", "%v", err)
+		// One output path per process, written over again and again - as CI regenerates the committed model in
+		// place. It starts as a copy of the committed file; later cases overwrite longer and shorter predecessors.
+		if c17out == "" {
+			dir, err := os.MkdirTemp(os.Getenv("VERIF_WORK"), "c17-")
+			if err != nil {
+				return bad("cli", "harness:tempdir", "%v", err)
+			}
+			c17out = filepath.Join(dir, "FormalVerification.lean")
+			if raw, err := os.ReadFile(filepath.Join(fvDir(), "FormalVerification.lean")); err == nil {
+				os.WriteFile(c17out, raw, 0o644)
+			}
 		}
-		defer os.RemoveAll(dir)
-		out := filepath.Join(dir, "model.lean")
+		out := c17out
 		r := runCLI(300*time.Second, nil, []string{fmt.Sprintf("GOMAXPROCS=%d", c.GoMaxProcs)}, "extract-circuit", "--output", out, "--tree-depth", fmt.Sprint(c.Depth), "--batch-size", fmt.Sprint(c.Batch))
 		if r.ExitCode != 0 {
 			return bad("cli", "extract-circuit:exit", "extract-circuit (%d,%d) exited %d: %s", c.Depth, c.Batch, r.ExitCode, tail(r.Stderr, 300))
@@ -193,7 +202,11 @@ func runC17(c c17Case) Result {
 			return bad("cli", "ExtractLean:error", "%v", err)
 		}
 		if string(raw) != inproc {
-			return bad("cli", "ExtractLean:nondeterministic-across-processes", "extract-circuit (%d,%d) in a fresh process with GOMAXPROCS=%d produced %s, in-process extraction %s", c.Depth, c.Batch, c.GoMaxProcs, digest(string(raw)), digest(inproc))
+			sig := "ExtractLean:nondeterministic-across-processes"
+			if strings.HasPrefix(string(raw), inproc) || strings.HasPrefix(inproc, string(raw)) {
+				sig = "extract-circuit:output-depends-on-previous-file-content"
+			}
+			return bad("cli", sig, "extract-circuit (%d,%d) in a fresh process with GOMAXPROCS=%d left %d bytes (%s) in the output file, in-process extraction is %d bytes (%s)", c.Depth, c.Batch, c.GoMaxProcs, len(raw), digest(string(raw)), len(inproc), digest(inproc))
 		}
 		return ok("cli", true)
 	case "guard":
